@@ -210,6 +210,25 @@ def run_all_lines(nthreads, schedule, widths=None):
     return results, ref
 
 
+class _SubInt(int):
+    pass
+
+
+def run_mixed_promotion(nthreads, schedule):
+    """thread 0 prints the FIRST instance of a lazily registered class (promotion writes the shared
+    registries) while the others print values whose exact class has no printer of its own (exception,
+    instance of a subclass of a built-in type, a dict holding both): lookups racing with the write"""
+    from prettyprinter import pformat
+    base, cls = fresh_lazy_class(0)
+    others = [KeyError('k'), _SubInt(5), {'error': KeyError('k'), 'n': _SubInt(7), 'pad': 'x' * 60}]
+    vals = [cls(0)] + [others[(i - 1) % len(others)] for i in range(1, nthreads)]
+    ref = ['sched.%s(0)' % cls.__qualname__] + [pformat(v) for v in vals[1:]]
+    ctl = Controller(nthreads, region='promotion')
+    fns = [(lambda v=v: pformat(v)) for v in vals]
+    results, used = ctl.run(fns, schedule)
+    return results, ref
+
+
 def bounded_schedules(nthreads, max_run, switches):
     """all schedules made of at most [switches]+1 runs (a thread executing 0..max_run traced lines
     before being preempted by another thread); the remainder is drained sequentially"""
